@@ -458,12 +458,12 @@ func checkShortCircuit(w *World, r *Report) {
 	}
 
 	type st struct {
-		b      *ssa.BasicBlock
-		ops    uint8 // bit set over {and, &&, or, ||, other}: possible operators
-		lb     int8  // toBool(left): 0 unknown, 1 true, 2 false
-		cb     int8  // toBool(condition)
-		sawT   bool
-		sawF   bool
+		b    *ssa.BasicBlock
+		ops  uint8 // bit set over {and, &&, or, ||, other}: possible operators
+		lb   int8  // toBool(left): 0 unknown, 1 true, 2 false
+		cb   int8  // toBool(condition)
+		sawT bool
+		sawF bool
 	}
 	opBit := map[string]uint8{"and": 1, "&&": 2, "or": 4, "||": 8}
 	const allOps = uint8(31)
